@@ -108,6 +108,8 @@ struct KModel {
   size_t k = 1;
   bool bounded = false;
   bool lenient_full = false; // second pass: a rejected push is always admissible
+  bool lenient_overlap_only = false; // third pass: ... but only if it overlaps another push (the mechanism of finding D17)
+  std::vector<char> overlaps_push;
   size_t segs = 1;
   const History* h = nullptr;
   std::vector<int> overlap;
@@ -118,7 +120,9 @@ struct KModel {
         return true;
       }
       // bounded: rejected only if at least (segments-1)*k+1 values are stored
-      return bounded && (lenient_full || s.size() >= (segs - 1) * k + 1);
+      if (!bounded) return false;
+      if (lenient_full && (!lenient_overlap_only || overlaps_push[&o - h->ops])) return true;
+      return s.size() >= (segs - 1) * k + 1;
     }
     if (o.status == 1) {
       size_t lim = s.size() < k ? s.size() : k;
@@ -343,6 +347,32 @@ public:
     LinChecker<KModel> lc2(c.hist, lenient, ops);
     LinResult r2 = lc2.run(KModel::State());
     if (r2.ok) {
+      // Finding D17 needs another push whose item is in the ring tentatively while the rejected push looks at it. Is the
+      // history explained if only rejected pushes that overlap another push are unconstrained? If not, a push was
+      // rejected below the bound without any concurrent push: a different defect (class spurious-full-no-concurrent-push).
+      KModel narrow = lenient;
+      narrow.lenient_overlap_only = true;
+      narrow.overlaps_push.assign(c.hist.n, 0);
+      for (int i : ops)
+        for (int j = 0; j < c.hist.n; j++) {
+          const OpRec& a = c.hist.ops[i];
+          const OpRec& b = c.hist.ops[j];
+          if (i == j || b.kind != OP_PUSH) continue;
+          if (!c.hist.precedes(a, b) && !c.hist.precedes(b, a)) narrow.overlaps_push[i] = 1;
+        }
+      LinChecker<KModel> lc3(c.hist, narrow, ops);
+      LinResult r3 = lc3.run(KModel::State());
+      if (!r3.budget && !r3.ok) {
+        std::string rej;
+        for (int i : ops)
+          if (c.hist.ops[i].kind == OP_PUSH && c.hist.ops[i].status == 0 && !narrow.overlaps_push[i]) {
+            std::vector<int> one{i};
+            rej += describe_ops(c.hist, *this, one) + " ";
+          }
+        c.fail("spurious-full-no-concurrent-push", "try_push was rejected although (segments-1)*k+1 = %zu values were never stored at any instant of the call, "
+               "and no other push overlaps it (k=%zu, segments=%zu); rejected without a concurrent push: %s", (m.segs - 1) * m.k + 1, m.k, m.segs, rej.c_str());
+        return;
+      }
       if (getenv("XSIM_KFIFO_IGNORE_SPURIOUS_FULL")) return; // development aid: look past known finding D17
       std::string rej;
       for (int i : ops)
